@@ -148,7 +148,7 @@ U("lex_dfa", tu="lexer", harness="harness/lex_dfa.c", entry="h_lex_dfa", func="f
 
 LEXTRUST = ["flex driver loop (longest match, back-up) and buffer management", "sscanf(%o/%x), getenv, isspace (C locale): assumed contracts (carriers in harness/lex_common.h)",
             "extraction of the rule actions from the generated switch (extract/extract_actions.py, must-fire checks)"]
-for _nm, _props in (("act_top", ["C03", "C02", "C06", "C08", "C15"]), ("act_dq", ["C03", "C02", "C06", "C08", "C05"]), ("act_sq", ["C03", "C02", "C06", "C08"]),
+for _nm, _props in (("act_top", ["C03", "C02", "C06", "C08", "C15"]), ("act_dq", ["C03", "C02", "C06", "C08", "C05"]), ("act_sq", ["C03", "C02", "C06", "C08", "C05"]),
                     ("act_env", ["C03", "C02", "C06"]), ("act_linecomment", ["C15", "C03", "C02", "C06"]), ("act_ccomment", ["C15", "C03", "C02", "C06", "C08"])):
     for _sh in range(5):
         if _nm == "act_top" and _sh not in (0, 2):
